@@ -146,6 +146,9 @@ def monitor(mode, p):
             if "cnt_after" in im and (im.get("cnt_after") != "1" or im.get("unique_after") != "true" or im.get("freed") != "true"):
                 bad.append("%s: after this serialisation (%s) the handle is no longer what it was: count %s, is_unique %s, block freed on drop: %s — a reference "
                            "was taken and not given back" % (name, x["kind"], im.get("cnt_after"), im.get("unique_after"), im.get("freed")))
+            if im.get("reentrant_same", "true") != "true":
+                bad.append("%s: serialising while the serializer takes (and keeps) another handle to the same value at its first callback does not give "
+                           "the same calls / result as without — the impl depends on the count staying put during the payload's serialisation" % name)
         if mode == "dip":
             # in-place deserialisation into a handle that already exists (Arc: shared with two more owners, old count 3;
             # UniqueArc: sole).  "produces a NEW handle that is the SOLE owner": the place ends up on a fresh block with
